@@ -394,31 +394,6 @@ def dedup_eval(e, inst_var, explicit_param):
 DEDUP_WANT = {(True, True): (1, "orig", "E", 0), (True, False): (1, "orig", "E", 0), (False, True): (0, None, "D", 0), (False, False): (1, "F", "F", 1)}
 
 
-def _dedup(e, inst_var):
-    """if let Some(id) = result_id { push; id } else if let Some(id) = self.dedup_insert_type(&inst) { id } else { fresh; set; push; id }"""
-    if not (e[0] == "if" and e[1][0] == "let" and e[3] is not None and inst_var):
-        return None
-    t = show(e)
-    n1 = ("if let Some(%s) = %s { self.module.types_global_values.push(%s); %s }" % ("{P}", "{P}", inst_var, "{P}"))
-    pat, src = e[1][1], e[1][2]
-    if not (pat[0] == "p_ts" and pat[1] == "Some" and pat[2][0][0] == "p_ident"):
-        return None
-    v = pat[2][0][1]
-    b1 = [show_stmt(x) for x in e[2][1]]
-    ok1 = b1 == ["self.module.types_global_values.push(%s);" % inst_var, v]
-    e2 = e[3]
-    if not (e2[0] == "if" and e2[1][0] == "let" and e2[3] is not None):
-        return {"shape_ok": False, "why": "second branch is not `else if let`"}
-    ok2 = show(e2[1][2]) == "self.dedup_insert_type(&%s)" % inst_var and e2[1][1][0] == "p_ts" and e2[1][1][1] == "Some" \
-        and [show_stmt(x) for x in e2[2][1]] == [e2[1][1][2][0][1]]
-    b3 = [show_stmt(x) for x in e2[3][1]]
-    ok3 = len(b3) == 4 and b3[0].startswith("let ") and b3[0].endswith("= self.id();")
-    if ok3:
-        nid = b3[0][4:].split(" ")[0]
-        ok3 = b3[1] == "%s.result_id = Some(%s);" % (inst_var, nid) and b3[2] == "self.module.types_global_values.push(%s);" % inst_var and b3[3] == nid
-    return {"shape_ok": bool(ok1 and ok2 and ok3), "explicit_param": path_of(src), "why": "%s %s %s" % (ok1, ok2, ok3), "text": t[:300]}
-
-
 def dedup_stmt(e, inst_var, pnames):
     """the statement is the explicit/found/fresh decision of an implicit-type method if it mentions dedup_insert_type"""
     if not inst_var or "dedup_insert_type" not in show(e):
